@@ -35,6 +35,13 @@ def box(name):
         return dict(fam=B(2, 'xy', 2, 2, render='tok', nt_names=nts, mods=mods), alpha='xy', lexers=('basic', 'dynamic'))
     if base == 'long':      # one long alternative for start: ambiguous intermediate nodes followed by several symbols
         return dict(fam=B(2, 'x', (1, 2), (4, 2), render='tok', nt_names=nts, mods=mods), alpha='x', lexers=('basic', 'dynamic'))
+    if base == 'in3':       # nested inlined rules: start: .. _a ..; _a: up to 3 symbols incl. _b; _b ambiguous
+        return dict(fam=B(3, 'x', (1, 1, 2), (2, 3, 2), render='tok', nt_names=('start', '_a', '_b')), alpha='x', lexers=('basic', 'dynamic'))
+    if base == 'in3q':
+        return dict(fam=B(3, 'x', (1, 1, 2), (2, 3, 2), render='tok', nt_names=('start', 'a', '_b'), mods={'a': ('?', None)}), alpha='x', lexers=('basic',))
+    if base == 'ig':        # %ignore " " next to terminals that start with / can match the ignored character
+        from .c01 import AB_SP, WS
+        return dict(fam=B(2, 'abcd', (2, 1), 2, render=AB_SP, ignore=('WS',), extra_terms=(WS,)), alpha='ab ', lexers=('dynamic', 'dynamic_complete'))
     if base == 'k3':
         return dict(fam=B(3, 'x', (2, 2, 1), 2, render='tok'), alpha='x', lexers=('basic', 'dynamic'))
     if base == 'dc':
@@ -45,9 +52,9 @@ def box(name):
 
 
 TIERS = {
-    'quick': [('x1', 1, 4), ('x1-u', 1, 4), ('x1-q', 1, 4), ('dc', 4, 4), ('x2', 16, 4), ('co', 16, 4), ('long', 2, 5)],
+    'quick': [('x1', 1, 4), ('x1-u', 1, 4), ('x1-q', 1, 4), ('dc', 4, 4), ('x2', 16, 4), ('co', 16, 4), ('long', 2, 5), ('in3', 32, 4), ('in3q', 256, 4), ('ig', 16, 4)],
     'thorough': [('x1', 1, 5), ('x1-u', 1, 5), ('x1-q', 1, 5), ('dc', 1, 4), ('dc-u', 2, 4), ('dc-q', 2, 4),
-                 ('x2', 1, 4), ('x2-u', 4, 4), ('x2-q', 4, 4), ('co', 1, 4), ('k3', 8, 4), ('long', 1, 6), ('long-u', 1, 5), ('long-q', 1, 5)],
+                 ('x2', 1, 4), ('x2-u', 4, 4), ('x2-q', 4, 4), ('co', 1, 4), ('k3', 8, 4), ('long', 1, 6), ('long-u', 1, 5), ('long-q', 1, 5), ('in3', 4, 4), ('in3q', 16, 4), ('ig', 1, 4)],
 }
 
 
@@ -72,7 +79,7 @@ def norm_ref(t, same=None):
     return ('tree', t[1], tuple(norm_ref(c, same) for c in t[2]))
 
 
-def valid_derivation(t, g, text, named):
+def valid_derivation(t, g, text, named, reach=None):
     """Direct validator for no-shaping grammars: every node spells one alternative of its rule and the leaves
     concatenate to the input (used for cyclic grammars, where the derivation set is infinite)."""
     leaves = []
@@ -92,7 +99,14 @@ def valid_derivation(t, g, text, named):
                     return False
                 kinds.append(('ref', c[1]))
         return any(tuple(seq) == tuple(kinds) for seq, _ in g.rules[n[1]].alts)
-    return ok(t) and ''.join(leaves) == text
+    if not ok(t):
+        return False
+    if reach is None:
+        return ''.join(leaves) == text
+    cur = set(reach[0])         # leaves must tile the input with only ignored text between them
+    for leaf in leaves:
+        cur = {q for p_ in cur if text.startswith(leaf, p_) for q in reach[p_ + len(leaf)]}
+    return len(text) in cur
 
 
 def check(g, gi, boxname, b, inputs, res, only=None):
@@ -138,7 +152,7 @@ def check(g, gi, boxname, b, inputs, res, only=None):
                 res['nontrivial'] += 1 if w else 0
                 res['counters']['cyclic cases (termination + soundness)'] += 1
                 if plain:
-                    bad = [t for t in gotset if not valid_derivation(t, g, w, named)]
+                    bad = [t for t in gotset if not valid_derivation(t, g, w, named, E.reach if g.ignore else None)]
                     if bad:
                         res['viol'].append({'kind': 'unsound-tree-cyclic', 'cause': 'cyclic-soundness', 'case': case,
                                             'expected': 'every tree is a derivation of the input', 'observed': bad[0]})
